@@ -225,4 +225,70 @@ theorem next_filter_eq (p : Int → Bool) (s : Shape) (l : LSt) (i : State s) (r
   simp [next, he]
   rfl
 
+/-- source `Next` calls made so far plus elements the source still holds: every successful source
+`Next` keeps it, only a call past the end raises it -/
+def mu (sh : Shape) (st : State sh) : Nat := (source sh st).nexts + (source sh st).rest.length
+
+theorem filterLoop_mu (s : Shape) (p : Int → Bool)
+    (ih : ∀ i : State s, ((next s i).2 = true → mu s (next s i).1 = mu s i) ∧ mu s (next s i).1 ≤ mu s i + 1) :
+    ∀ (fuel : Nat) (i : State s) (d : Bool) (v : Int) r,
+      filterLoop (next s) (val s) p fuel i d v = some r →
+      (r.2.2.2 = true → mu s r.1 = mu s i) ∧ mu s r.1 ≤ mu s i + 1 := by
+  intro fuel
+  induction fuel with
+  | zero => intro i d v r h; simp [filterLoop] at h
+  | succ fuel ihf =>
+    intro i d v r hr
+    unfold filterLoop at hr
+    cases d with
+    | true => simp at hr; subst hr; simp
+    | false =>
+      have hi := ih i
+      cases hn : (next s i).2 with
+      | false => simp [hn] at hr; subst hr; simp; exact hi.2
+      | true =>
+        have hk := hi.1 hn
+        by_cases hp : p (val s (next s i).1) = true
+        · simp [hn, hp] at hr; subst hr; simp [hk]
+        · have hp' : p (val s (next s i).1) = false := by
+            cases h' : p (val s (next s i).1) <;> simp_all
+          simp [hn, hp'] at hr
+          have := ihf _ _ _ _ hr
+          rw [hk] at this
+          exact this
+
+theorem next_mu (sh : Shape) : ∀ st : State sh,
+    ((next sh st).2 = true → mu sh (next sh st).1 = mu sh st) ∧ mu sh (next sh st).1 ≤ mu sh st + 1 := by
+  induction sh with
+  | src =>
+    intro st
+    cases hr : SrcSt.rest st with
+    | nil => simp [next, mu, source, hr]
+    | cons x r => simp [next, mu, source, hr]; omega
+  | map f s ih =>
+    rintro ⟨l, i⟩
+    have := ih i
+    by_cases hd : l.done = true
+    · simp [next, hd, mu, source]
+    · cases hn : (next s i).2 with
+      | false => simp [next, hd, hn, mu, source] at this ⊢; exact this
+      | true => simp [next, hd, hn, mu, source] at this ⊢; exact this
+  | filter p s ih =>
+    rintro ⟨l, i⟩
+    cases he : filterLoop (next s) (val s) p (remaining s i + 1) i l.done l.val with
+    | none => exact absurd he (filterLoop_fuel_ok p s l i)
+    | some r =>
+      have hn := next_filter_eq p s l i r he
+      have := filterLoop_mu s p ih _ _ _ _ _ he
+      rw [hn]
+      simpa [mu, source] using this
+  | limit lim s ih =>
+    rintro ⟨l, i⟩
+    have := ih i
+    by_cases hc : lim > 0 ∧ (l.count : Int) ≥ lim
+    · simp [next, hc, mu, source]
+    · cases hn : (next s i).2 with
+      | false => simp [next, hc, hn, mu, source] at this ⊢; exact this
+      | true => simp [next, hc, hn, mu, source] at this ⊢; exact this
+
 end C43
